@@ -104,6 +104,16 @@ def wl_util(spec, ctx, mods):
                 kw = {}
                 if r.random() < 0.3:
                     kw = {"start_label": "N", "end_label": "N"}
+                if len(iv) and r.random() < 0.08:
+                    # integer-typed intervals (whole seconds), fractional limits
+                    tot = r.randrange(2, 14)
+                    cuts = sorted(r.sample(range(1, tot), min(tot - 1, r.randrange(0, 4))))
+                    bx = [0] + cuts + [tot]
+                    iv = np.array([[a, b_] for a, b_ in zip(bx[:-1], bx[1:])],
+                                  dtype=r.choice([np.int64, np.int32]))
+                    labels = gen.labels(r, len(iv))
+                    t_min = r.choice([None, r.randrange(0, tot * 4) / 4.0])
+                    t_max = r.choice([None, (t_min or 0.0) + r.randrange(1, tot * 4) / 4.0])
                 res = u.adjust_intervals(iv, labels, t_min, t_max, **kw)
                 if ctx.want_sample() and r.random() < 0.05:
                     ctx.sample({"fn": "util.adjust_intervals", "intervals": iv.tolist(),
@@ -140,6 +150,15 @@ def wl_util(spec, ctx, mods):
                     yi, yl = gen.segmentation(r, start=0, total=tot * 64)
                     if r.random() < 0.5:
                         xi, xl, yi, yl = yi, yl, xi, xl
+                elif r.random() < 0.15 and len(xi) >= 2:
+                    # the second annotation shares the first one's boundaries up to
+                    # one ulp (0.3 typed vs 0.1 + 0.2 computed): slivers, not merges
+                    bs = [xi[0, 0]] + [b_ for _, b_ in xi]
+                    keep = [bs[0]] + [np.nextafter(b_, r.choice([np.inf, -np.inf]))
+                                      if r.random() < 0.7 else b_
+                                      for b_ in bs[1:-1] if r.random() < 0.8] + [bs[-1]]
+                    yi = np.array([[a, b_] for a, b_ in zip(keep[:-1], keep[1:])])
+                    yl = gen.labels(r, len(yi))
                 u.merge_labeled_intervals(xi, xl, yi, yl)
             elif op == "interp":
                 iv = gappy_intervals(r)
